@@ -519,6 +519,18 @@ fn allowed_desc(ty: &str, msl: bool) -> &'static [&'static str] {
     }
 }
 
+/// descriptor types a declaration of the given *source* kind may be reported as (used where nothing is emitted
+/// to compare with: Metal without a pipeline)
+fn desc_of_input_kind(kind: &str) -> &'static [&'static str] {
+    match kind {
+        "BufferAddress" => &["BufferAddress"],
+        "RWBufferAddress" => &["RwBufferAddress"],
+        "ByteAddressBuffer" => &["ByteBuffer"],
+        "RWByteAddressBuffer" => &["RwByteBuffer"],
+        k => allowed_desc(k, false),
+    }
+}
+
 /// D3D register class of a descriptor type
 fn register_class(desc: &str) -> char {
     match desc {
@@ -767,6 +779,9 @@ fn judge(case: &Case, tgt: Tgt, pipe: Option<&XPipe>, out: &rssl::CompiledPipeli
                 }
                 if msl && pipe.is_none() {
                     // compare with the input declaration instead
+                    if !desc_of_input_kind(&r.kind).contains(&desc.as_str()) {
+                        fails.push(Fail { class: "type-mismatch", detail: format!("`{}` declared as {} but reported as {}", b.name, r.kind, desc) });
+                    }
                     let want = match r.arr {
                         ArrLen::No => Some(Some(1)),
                         ArrLen::Sized(n) => Some(Some(n)),
@@ -825,6 +840,27 @@ fn judge(case: &Case, tgt: Tgt, pipe: Option<&XPipe>, out: &rssl::CompiledPipeli
                 fails.push(Fail { class: "struct-resource-unbound", detail: format!("`{} {}` (a struct holding resources) is declared in the emitted source without annotation and without metadata entry", d.ty, d.name) });
             } else {
                 fails.push(Fail { class: "declaration-entries", detail: format!("externally bound `{}` has {} metadata entries", d.name, n) });
+            }
+        }
+    }
+
+    if msl && pipe.is_none() {
+        // no argument buffers are emitted in this mode: count the entries against the input declarations
+        for r in &case.res {
+            let prefix = format!("{}_", r.name);
+            if shared_names.contains(r.name.as_str()) || case.res.iter().any(|o| o.name.starts_with(&prefix)) {
+                continue; // not attributable by name
+            }
+            let bindable = !r.ss && !r.stat && r.kind != "struct" && matches!(r.arr, ArrLen::No | ArrLen::Sized(_));
+            let n = out
+                .metadata
+                .bind_groups
+                .iter()
+                .flat_map(|g| g.bindings.iter())
+                .filter(|b| b.name == r.name || strip_generated_suffix(&b.name) == Some(r.name.as_str()))
+                .count();
+            if n != bindable as usize {
+                fails.push(Fail { class: "declaration-entries", detail: format!("input declaration `{}` (externally bound: {}) has {} metadata entries", r.name, bindable, n) });
             }
         }
     }
